@@ -69,7 +69,7 @@ fn decode(ctl: &[u8]) -> Graph {
         let k = c.below(4);
         for _ in 0..k {
             let j = c.below(n);
-            let form = c.below(7) as u8;
+            let form = c.below(10) as u8;
             // edges against the rank make cycles: more often between functions (legal) than through constants (errors)
             let allowed = rank[j] < rank[i] || c.chance(if !items[i].is_const && !items[j].is_const { 45 } else { 10 });
             if allowed && !(items[i].refs.iter().any(|(x, _)| *x == j)) {
@@ -207,7 +207,17 @@ fn render_with(g: &Graph, vals: Option<&BTreeMap<usize, i64>>) -> Vec<(String, S
         let mut pre: Vec<String> = Vec::new();
         for (k, (j, form)) in it.refs.iter().enumerate() {
             let r = reference(g, i, *j, &mut imports[m], *form);
-            match form % 7 {
+            match form % 10 {
+                // the first mention in the text stands on a path that is not taken
+                7 => {
+                    pre.push(format!("let u{k} = if 1 > 2 {{ {r} }} else {{ 0 }};"));
+                    terms.push(format!("(u{k} + {r})"));
+                }
+                8 => terms.push(format!("(match Option.Some(0) {{ Some(v) if v > 5 => {r}, _ => {r} + 0 }})")),
+                9 => {
+                    pre.push(format!("let w{k} = 0; let n{k} = 0; while n{k} < 2 {{ if n{k} == 1 {{ w{k} = w{k} + {r}; }} n{k} = n{k} + 1; }}"));
+                    terms.push(format!("w{k}"));
+                }
                 0 => terms.push(r),
                 1 => terms.push(format!("idf({r})")),
                 2 => terms.push(format!("({{ let t{k} = {r}; t{k} }})")),
@@ -265,7 +275,14 @@ fn render_with(g: &Graph, vals: Option<&BTreeMap<usize, i64>>) -> Vec<(String, S
                         let _ = writeln!(f, "const {}: i32 = {{ {} e({}) + {} }};", name(g, i), pre.join(" "), i + 1, sum);
                     }
                     if !it.no_helper {
-                        let _ = writeln!(hf, "fn read_{}() -> i32 {{ {} }}", name(g, i), name(g, i));
+                        let k = name(g, i);
+                        let body = match i % 4 {
+                            0 => k.clone(),
+                            1 => format!("if 1 > 2 {{ return {k}; }} {k}"),
+                            2 => format!("let r = 0; let i = 0; while i < 2 {{ if i == 1 {{ r = r + {k}; }} i = i + 1; }} r"),
+                            _ => format!("match Option.Some(0) {{ Some(v) if v > 5 => {k}, _ => {k} }}"),
+                        };
+                        let _ = writeln!(hf, "fn read_{k}() -> i32 {{ {body} }}");
                     }
                 }
             }
